@@ -1,8 +1,10 @@
 #!/usr/bin/env bash
-# tools/micro.sh run <C13|C16> <quick|thorough> <out.json>   micro-schedule tier (Miri as the scheduler)
+# tools/micro.sh run <C13|C15|C16> <quick|thorough> <out.json>   micro-schedule tier (Miri as the scheduler)
 # tools/micro.sh replay <replay.json>
-# One (subject, seed) pair = one Miri execution = one exactly repeatable interleaving of three
-# overlapping validation calls (full, stop-on-first, SwiftMessage::validate) on one shared message.
+# One line of the pairs file (subject, seed, mode, rounds) = one Miri execution = one exactly repeatable
+# interleaving of overlapping calls. Modes (miri/src/main.rs): c13 (full, stop-on-first, SwiftMessage::validate and
+# the plugin on one shared message), c13cold / c15cold (four callers' FIRST calls of the process overlap),
+# c15 (validate_mt / parse_mt on a valid message next to a rule-violating one), c15pub (four callers publish), c16.
 set -u
 HERE="$(cd "$(dirname "${BASH_SOURCE[0]}")/.." && pwd)"
 cd "$HERE/miri" || exit 2
@@ -100,5 +102,5 @@ json.dump({"subjects": int(n), "seeds_per_subject": int(nseeds), "interleavings_
 print(f"micro-schedule: {ok + len(bad_runs)} interleavings over {n} subjects x {nseeds} seeds, {len(bad_runs)} violating, {skip} skipped, {len(unsupported) + len(aborted)} without verdict, {len(harness)} harness errors, {float(wall):.1f}s")
 PY
   rm -rf "$tmp";;
- *) echo "usage: $0 run <C13|C16> <tier> <out.json> | replay <file>"; exit 2;;
+ *) echo "usage: $0 run <C13|C15|C16> <tier> <out.json> | replay <file>"; exit 2;;
 esac
